@@ -30,7 +30,7 @@ def check_generic_shape(model: Model) -> List[str]:
         problems.append("v_Generic no longer builds the handler name 'v_<ClassName>'")
     if "hasattr" not in src or "getattr" not in src:
         problems.append("v_Generic no longer looks handlers up with hasattr/getattr")
-    if not any(isinstance(n, ast.Call) and last_attr(n) == "v_Default" for n in ast.walk(f)):
+    if not any(isinstance(n, ast.Attribute) and n.attr == "v_Default" for n in ast.walk(f)):
         problems.append("v_Generic no longer falls back to v_Default")
     return problems
 
